@@ -676,224 +676,4 @@ theorem fastReplaceLoop_eq (units : List Nat) (repl : List Int → List Nat) (n 
     have := ih (rE r) (buf ++ sub units li (rS r) ++ repl r) h3
     exact this
 
-/-! ### split: the repaired fast loop over the complete sweep simulates the generic algorithm -/
-
-abbrev G (f : Finder) (units : List Nat) := splitLoop f units false none
-
-theorem advance_false (units : List Nat) (q : Nat) : advance units q false = q + 1 := by simp [advance]
-
-theorem G_ge (f : Finder) (units : List Nat) (fuel p q : Nat) (acc) (h : q ≥ units.length) :
-    G f units (fuel + 1) p q acc = acc ++ [some (sub units p units.length)] := by
-  simp [G, splitLoop, h]
-
-theorem G_none (f : Finder) (units : List Nat) (fuel p q : Nat) (acc) (h : q < units.length)
-    (hm : matchAt f q = none) : G f units (fuel + 1) p q acc = G f units fuel p (q + 1) acc := by
-  have : ¬ q ≥ units.length := by omega
-  simp [G, splitLoop, this, hm, advance_false]
-
-theorem G_eqp (f : Finder) (units : List Nat) (fuel p q : Nat) (acc) (r : MatchR) (h : q < units.length)
-    (hm : matchAt f q = some r) (he : min r.stop units.length = p) :
-    G f units (fuel + 1) p q acc = G f units fuel p (q + 1) acc := by
-  have : ¬ q ≥ units.length := by omega
-  simp [G, splitLoop, this, hm, advance_false, he]
-
-theorem G_split (f : Finder) (units : List Nat) (fuel p q : Nat) (acc) (r : MatchR) (h : q < units.length)
-    (hm : matchAt f q = some r) (he : min r.stop units.length ≠ p) :
-    G f units (fuel + 1) p q acc =
-      G f units fuel (min r.stop units.length) (min r.stop units.length)
-        (acc ++ [some (sub units p q)] ++ (resultArray units r).drop 1) := by
-  have : ¬ q ≥ units.length := by omega
-  simp [G, splitLoop, this, hm, he]
-  intro hbad; omega
-
-/-- skipping positions where nothing matches -/
-theorem G_skip (f : Finder) (units : List Nat) (p : Nat) (acc) : ∀ (d fuel q : Nat), q + d ≤ units.length →
-    (∀ j, q ≤ j → j < q + d → matchAt f j = none) →
-    G f units (fuel + d) p q acc = G f units fuel p (q + d) acc := by
-  intro d
-  induction d with
-  | zero => intro fuel q _ _; rfl
-  | succ d ih =>
-    intro fuel q hle hnone
-    have h1 : fuel + (d + 1) = (fuel + d) + 1 := by omega
-    rw [h1, G_none f units (fuel + d) p q acc (by omega) (hnone q (by omega) (by omega))]
-    have := ih fuel (q + 1) (by omega) (fun j hj1 hj2 => hnone j (by omega) (by omega))
-    rw [this]
-    congr 1; omega
-
-
-/-! fast (fixed) loop, limit none -/
-abbrev F (units : List Nat) := fastSplitLoop units none
-
-theorem F_nil (units : List Nat) (li found : Nat) (acc) : F units [] li found acc = (acc, false, li) := by
-  simp [F, fastSplitLoop]
-
-theorem F_skip (units : List Nat) (r : List Int) (rest) (li found : Nat) (acc)
-    (h : rS r = rE r ∧ (rS r = li ∨ rS r = units.length)) :
-    F units (r :: rest) li found acc = F units rest li found acc := by
-  obtain ⟨h1, h2⟩ := h
-  simp only [F, fastSplitLoop]
-  have e1 : (r.getD 0 0).toNat = rS r := rfl
-  have e2 : (r.getD 1 0).toNat = rE r := rfl
-  rw [e1, e2]
-  have : (rS r == rE r && (rS r == li || rS r == units.length)) = true := by
-    rcases h2 with h2 | h2 <;> simp [h1, h2]
-    · rw [← h1, h2]; simp
-    · rw [← h1, h2]; simp
-  simp [this]
-
-theorem F_take (units : List Nat) (r : List Int) (rest) (li found : Nat) (acc)
-    (h : ¬ (rS r = rE r ∧ (rS r = li ∨ rS r = units.length))) :
-    F units (r :: rest) li found acc =
-      F units rest (rE r) (found + 1 + (captureValsPlain units (r.drop 2)).length)
-        (acc ++ [some (sub units li (rS r))] ++ captureValsPlain units (r.drop 2)) := by
-  simp only [F, fastSplitLoop]
-  have e1 : (r.getD 0 0).toNat = rS r := rfl
-  have e2 : (r.getD 1 0).toNat = rE r := rfl
-  rw [e1, e2]
-  have : (rS r == rE r && (rS r == li || rS r == units.length)) = false := by
-    by_cases a : rS r = rE r
-    · by_cases b : rS r = li
-      · exact absurd ⟨a, Or.inl b⟩ h
-      · by_cases c : rS r = units.length
-        · exact absurd ⟨a, Or.inr c⟩ h
-        · simp [a, b, c]
-          constructor
-          · rw [← a]; exact b
-          · rw [← a]; exact c
-    · simp [a]
-  simp [this]
-  intro hbad; omega
-
-
-/-! the sweep (non-sticky, unlimited, code-unit steps) -/
-abbrev S (f : Finder) (units : List Nat) (fuel q : Nat) : List MatchR :=
-  idealAllLoop ⟨true, false, false⟩ f units false fuel q none
-
-theorem S_gt (f : Finder) (units : List Nat) (fuel q : Nat) (h : q > units.length) : S f units (fuel + 1) q = [] := by
-  simp [S, idealAllLoop, h]
-
-theorem S_gt' (f : Finder) (units : List Nat) (fuel q : Nat) (h : q > units.length) : S f units fuel q = [] := by
-  cases fuel with
-  | zero => rfl
-  | succ k => exact S_gt f units k q h
-
-theorem S_none (f : Finder) (units : List Nat) (fuel q : Nat) (h : f q = none) : S f units (fuel + 1) q = [] := by
-  simp only [S, idealAllLoop, h]
-  split <;> rfl
-
-theorem S_some (f : Finder) (units : List Nat) (fuel q : Nat) (r : MatchR) (hq : q ≤ units.length) (h : f q = some r) :
-    S f units (fuel + 1) q = r :: S f units fuel (if r.stop = r.start then r.stop + 1 else r.stop) := by
-  have : ¬ q > units.length := by omega
-  simp only [S, idealAllLoop, this, if_false, h]
-  simp [advance_false]
-
-def finish (units : List Nat) (x : List (Option (List Nat)) × Bool × Nat) : List (Option (List Nat)) :=
-  if x.2.1 then x.1 else x.1 ++ [some (sub units x.2.2 units.length)]
-
-/-- what the theorem needs from captures: exec's `lowerBound` rule changes nothing (captures in order) -/
-def CapsAgree (f : Finder) (units : List Nat) : Prop :=
-  ∀ i r, f i = some r → captureVals units (r.idx.drop 2) 0 = captureValsPlain units (r.idx.drop 2)
-
-theorem split_main (f : Finder) (units : List Nat) (hf : Leftmost f units.length) (hc : CapsAgree f units) :
-    ∀ (m q p : Nat) (acc : List (Option (List Nat))) (found fuelG fuelS : Nat),
-      units.length + 1 - q ≤ m → p ≤ q → units.length + 2 - q ≤ fuelS → 2 * (units.length + 1 - q) + 2 ≤ fuelG →
-      G f units fuelG p q acc = finish units (F units ((S f units fuelS q).map (·.idx)) p found acc) := by
-  intro m
-  induction m with
-  | zero =>
-    intro q p acc found fuelG fuelS hm hpq hS hG
-    have hq : q > units.length := by omega
-    obtain ⟨fg, rfl⟩ : ∃ k, fuelG = k + 1 := ⟨fuelG - 1, by omega⟩
-    rw [G_ge f units fg p q acc (by omega), S_gt' f units fuelS q hq]
-    simp [F_nil, finish]
-  | succ m ih =>
-    intro q p acc found fuelG fuelS hm hpq hS hG
-    by_cases hq : q > units.length
-    · obtain ⟨fg, rfl⟩ : ∃ k, fuelG = k + 1 := ⟨fuelG - 1, by omega⟩
-      rw [G_ge f units fg p q acc (by omega), S_gt' f units fuelS q hq]
-      simp [F_nil, finish]
-    · have hqn : q ≤ units.length := by omega
-      obtain ⟨fs, rfl⟩ : ∃ k, fuelS = k + 1 := ⟨fuelS - 1, by omega⟩
-      cases hfq : f q with
-      | none =>
-        -- nothing matches from q on: both sides end with the tail piece
-        rw [S_none f units fs q hfq]
-        simp only [List.map_nil, F_nil, finish, Bool.false_eq_true, if_false]
-        have hnone : ∀ j, q ≤ j → j < q + (units.length - q) → matchAt f j = none := by
-          intro j h1 h2
-          have := hf.none_up q j hfq h1 (by omega)
-          simp [matchAt, this]
-        have hskip := G_skip f units p acc (units.length - q) (fuelG - (units.length - q)) q (by omega) hnone
-        have e1 : fuelG - (units.length - q) + (units.length - q) = fuelG := by omega
-        have e2 : q + (units.length - q) = units.length := by omega
-        rw [e1, e2] at hskip
-        rw [hskip]
-        obtain ⟨fg, hfg⟩ : ∃ k, fuelG - (units.length - q) = k + 1 := ⟨fuelG - (units.length - q) - 1, by omega⟩
-        rw [hfg, G_ge f units fg p units.length acc (by omega)]
-      | some r =>
-        have hge := hf.ge q r hfq
-        have hin := hf.inside q r hfq
-        rw [S_some f units fs q r hqn hfq]
-        -- skip to the start of r
-        have hnone : ∀ j, q ≤ j → j < q + (r.start - q) → matchAt f j = none := by
-          intro j h1 h2
-          have hj := hf.stable q r j hfq h1 (by omega)
-          have : r.start ≠ j := by omega
-          simp [matchAt, hj, this]
-        have hskip := G_skip f units p acc (r.start - q) (fuelG - (r.start - q)) q (by omega) hnone
-        have e1 : fuelG - (r.start - q) + (r.start - q) = fuelG := by omega
-        have e2 : q + (r.start - q) = r.start := by omega
-        rw [e1, e2] at hskip
-        rw [hskip]
-        have hat : matchAt f r.start = some r := by
-          have := hf.stable q r r.start hfq hge (Nat.le_refl _)
-          simp [matchAt, this]
-        have hS : rS r.idx = r.start := rfl
-        have hE : rE r.idx = r.stop := rfl
-        simp only [List.map_cons]
-        by_cases hend : r.start = units.length
-        · -- a match at the very end never splits
-          have hemp : r.stop = r.start := by omega
-          obtain ⟨fg, hfg⟩ : ∃ k, fuelG - (r.start - q) = k + 1 := ⟨fuelG - (r.start - q) - 1, by omega⟩
-          rw [hfg, G_ge f units fg p r.start acc (by omega)]
-          rw [F_skip units r.idx _ p found acc ⟨by rw [hS, hE, hemp], Or.inr (by rw [hS, hend])⟩]
-          simp only [hemp, if_true]
-          rw [S_gt' f units fs (r.start + 1) (by omega)]
-          simp [F_nil, finish]
-        · have hlt : r.start < units.length := by omega
-          have hmin : min r.stop units.length = r.stop := by omega
-          by_cases hsk : r.stop = r.start ∧ r.start = p
-          · -- empty match where the previous piece ended: no split, both sides move on
-            obtain ⟨hemp, hp⟩ := hsk
-            obtain ⟨fg, hfg⟩ : ∃ k, fuelG - (r.start - q) = k + 1 := ⟨fuelG - (r.start - q) - 1, by omega⟩
-            rw [hfg, G_eqp f units fg p r.start acc r hlt hat (by omega)]
-            rw [F_skip units r.idx _ p found acc ⟨by rw [hS, hE, hemp], Or.inl (by rw [hS, hp])⟩]
-            simp only [hemp, if_true]
-            exact ih (r.start + 1) p acc found fg fs (by omega) (by omega) (by omega) (by omega)
-          · -- a split
-            have hne : min r.stop units.length ≠ p := by
-              intro h; apply hsk; omega
-            obtain ⟨fg, hfg⟩ : ∃ k, fuelG - (r.start - q) = k + 1 := ⟨fuelG - (r.start - q) - 1, by omega⟩
-            rw [hfg, G_split f units fg p r.start acc r hlt hat hne, hmin]
-            have hnotskip : ¬ (rS r.idx = rE r.idx ∧ (rS r.idx = p ∨ rS r.idx = units.length)) := by
-              rw [hS, hE]; intro ⟨a, b⟩
-              rcases b with b | b
-              · exact hsk ⟨a.symm, b⟩
-              · exact hend b
-            rw [F_take units r.idx _ p found acc hnotskip, hS, hE]
-            have hcaps : (resultArray units r).drop 1 = captureValsPlain units (r.idx.drop 2) := by
-              simp [resultArray, hc q r hfq]
-            rw [hcaps]
-            by_cases hemp : r.stop = r.start
-            · -- empty match (not at p): the generic loop re-finds it at (e,e) and steps over it
-              simp only [hemp, if_true]
-              obtain ⟨fg2, hfg2⟩ : ∃ k, fg = k + 1 := ⟨fg - 1, by omega⟩
-              rw [hfg2, G_eqp f units fg2 r.start r.start _ r hlt hat (by omega)]
-              exact ih (r.start + 1) r.start _ _ fg2 fs (by omega) (by omega) (by omega) (by omega)
-            · simp only [hemp, if_false]
-              exact ih r.stop r.stop _ _ fg fs (by omega) (by omega) (by omega) (by omega)
-
-
-
 end GojaModel.C20
